@@ -137,6 +137,8 @@ class Equiv:
 
     def prep(self, term):
         t = strip_all(term)
+        if self.run is not None:
+            t = rewrite(t, canon_repo_calls(self.run))
         for rw in self.rewrites:
             t = rewrite(t, rw)
         t = path_refine(lift_ite(t))
@@ -385,13 +387,19 @@ def close_loops(summary, term, _seen=None):
                 return t
             d = depth_of(t[1])
             init = lp.init.get(name, ("undef", name))
-            upd = lp.update.get(name, ("undef", name))
-            used = [n for n in sorted(lp.update) if any(x == ("phi", lp.lid, n) for x in walk(upd))]
-            order = [name] + [n for n in used if n != name]
-            m = {("phi", lp.lid, n): ("acc", d, i) for i, n in enumerate(order)}
             seen2 = seen | {(t[1], name)}
-            extra = tuple((close_loops(summary, lp.init.get(n, ("undef", n)), seen2), close_loops(summary, subst(lp.update.get(n), m), seen2)) for n in order[1:])
-            return ("fold", lp.kind, d, close_loops(summary, lp.iterable, seen2), close_loops(summary, init, seen2), close_loops(summary, subst(upd, m), seen2), extra)
+            # carried names the update depends on (transitively, also through nested loops), in order of first use
+            order, closed, i = [name], {}, 0
+            while i < len(order):
+                n = order[i]
+                i += 1
+                closed[n] = close_loops(summary, lp.update.get(n, ("undef", n)), seen2)
+                for x in walk(closed[n]):
+                    if x[0] == "acc" and x[1] == d and isinstance(x[2], str) and x[2] in lp.update and x[2] not in order:
+                        order.append(x[2])
+            m = {("acc", d, n): ("acc", d, i) for i, n in enumerate(order)}
+            extra = tuple((close_loops(summary, lp.init.get(n, ("undef", n)), seen2), subst(closed[n], m)) for n in order[1:])
+            return ("fold", lp.kind, d, close_loops(summary, lp.iterable, seen2), close_loops(summary, init, seen2), subst(closed[name], m), extra)
         if h == "phi":
             return ("acc", depth_of(t[1]), t[2]) if isinstance(t[2], str) else t
         if h == "iter":
@@ -411,10 +419,11 @@ def compare_function(r, rule, qual, spec_src, what, fname=None, eq=None, spec_mo
     r.rep.analysed(qual)
     fname = fname or qual.rsplit(".", 1)[1]
     sp = r.A.summarize_source(spec_src, fname, spec_mod or s.func.module)
-    code = subst(s.ret, canon_params(s))
-    spec = subst(sp.ret, canon_params(sp))
+    code, spec = s.ret, sp.ret
     if close:
         code, spec = close_loops(s, code), close_loops(sp, spec)
+    code = subst(code, canon_params(s))
+    spec = subst(spec, canon_params(sp))
     eq = eq or Equiv(rewrites=std_rewrites())
     eq.bind(r, cls=s.func.cls)
     return check_equiv(r.rep, rule, qual, what, code, spec, where_of(r.P, s.func, s.func.node), eq=eq, assume=assume, key=key, cond_alias=cond_alias)
@@ -438,7 +447,78 @@ def path_refine(tree, guards=()):
 
 
 
+# --------------------------------------------------------------------------- module-level constants
+def fold_module_consts(P, limit=40):
+    """A module-level name bound once to a small literal collection (or a set()/tuple()/list()/sorted() of one) is that literal."""
+    from .constfold import NotConstant, module_const
+
+    def lit(v):
+        if isinstance(v, (str, int, float, bool)) or v is None:
+            return const(v)
+        if isinstance(v, (tuple, list)) and len(v) <= limit:
+            return ("tuple" if isinstance(v, tuple) else "list", tuple(lit(x) for x in v))
+        if isinstance(v, (set, frozenset)) and len(v) <= limit:
+            return ("set", tuple(lit(x) for x in sorted(v, key=repr)))
+        raise NotConstant("large")
+
+    def rw(t):
+        if head(t) == "glob" and t[1] in P.module_vars:
+            try:
+                v = module_const(P, t[1])
+                if isinstance(v, (tuple, list, set, frozenset)):
+                    return lit(v)
+            except (NotConstant, TypeError):
+                return t
+        return t
+    return rw
+
+
+# --------------------------------------------------------------------------- calls of repository functions
+def canon_repo_calls(r):
+    """f(a, b, None) == f(a, b) == f(a, y=b) when the repository function f declares y=None: drop arguments equal to the declared
+    default and pass leading parameters positionally."""
+    P, A = r.P, r.A
+
+    def rw(t):
+        if head(t) != "call":
+            return t
+        f = strip(t[1])
+        if head(f) != "glob" or f[1] not in P.functions or any(head(a) == "star" for a in t[2]) or any(k == "**" for k, _ in t[3]):
+            return t
+        try:
+            params = A.summary(f[1]).params
+        except AnalysisBroken:
+            return t
+        if P.functions[f[1]].cls:
+            return t
+        pos = [p for p in params if p[2] == "pos"]
+        if any(p[2] == "var" for p in params) or len(t[2]) > len(pos):
+            return t
+        args, kws = list(t[2]), dict(t[3])
+        while len(args) < len(pos) and pos[len(args)][0] in kws:
+            args.append(kws.pop(pos[len(args)][0]))
+        dflt = {p[0]: p[1] for p in params if p[1] is not None and is_const(strip(p[1]))}
+        for k in list(kws):
+            if k in dflt and strip(kws[k]) == strip(dflt[k]):
+                del kws[k]
+        while args and pos[len(args) - 1][0] in dflt and strip(args[-1]) == strip(dflt[pos[len(args) - 1][0]]):
+            args.pop()
+        out = ("call", t[1], tuple(args), tuple(sorted(kws.items(), key=lambda kv: kv[0])))
+        return out if out != t else t
+    return rw
+
+
 # --------------------------------------------------------------------------- helper inlining
+def baseline_functions(r):
+    """Repository functions that existed on the tree the rules were validated on (helpers introduced later are inlined)."""
+    base = set(BASELINE_VOCAB.get("__functions__", []))
+    return {q for q in r.P.functions if q in base}
+
+
+def inline_new_helpers(r, term, cls=None):
+    return inline_helpers(r, term, baseline_functions(r) | IDENTITY_HELPERS, cls=cls)
+
+
 def inline_helpers(r, term, keep=(), cls=None, depth=3):
     """Replace calls to repository functions that the specification does not name (private helpers introduced by a refactoring)
     by their loop-closed return terms, parameters substituted; methods called on ``self`` are resolved through ``cls``."""
@@ -476,6 +556,37 @@ def inline_helpers(r, term, keep=(), cls=None, depth=3):
 # --------------------------------------------------------------------------- small semantic rewrites
 _NEVER_NONE = {"pandas.DataFrame", "pandas.Series", "numpy.array", "numpy.asarray", "numpy.zeros", "numpy.empty", "numpy.ones", "numpy.arange", "builtins.list", "builtins.dict",
                "builtins.set", "builtins.tuple", "builtins.sorted", "builtins.zip", "builtins.range", "numpy.unique", "numpy.histogram"}
+
+
+def _is_group_frame(x):
+    """x is the frame component of an item produced by iterating a pandas groupby (directly or through list / sorted / combinations /
+    enumerate): a DataFrame, never None."""
+    x = strip(x)
+    if head(x) != "item" or x[2] != 1:
+        return False
+    y = strip(x[1])
+    for _ in range(12):
+        h = head(y)
+        if h == "item":
+            y = strip(y[1])
+        elif h in ("citer", "elem"):
+            y = strip(y[3] if h == "citer" else y[2])
+        elif h == "iter":
+            y = strip(y[2])
+        elif h == "call":
+            f = strip(y[1])
+            if head(f) == "attr" and f[2] == "groupby":
+                return True
+            if head(f) == "glob" and f[1] in ("builtins.sorted", "builtins.list", "itertools.combinations", "builtins.enumerate", "builtins.tuple"):
+                args = list(y[2]) + [v for k, v in y[3] if k == "iterable"]
+                if not args:
+                    return False
+                y = strip(args[0])
+            else:
+                return False
+        else:
+            return False
+    return False
 
 
 def _is_assert_raise(t):
@@ -563,12 +674,22 @@ def small_rewrites(t):
         return t[2]
     if h == "cmp" and t[1] in ("==", "is") and is_const(strip(t[3]), False) and head(strip(t[2])) in ("cmp", "and", "or", "un"):
         return ("un", "not", t[2])
+    if h == "un" and t[1] == "not":
+        x = strip(t[2])
+        # not (a not in S) == a in S ; not (a is b) == a is not b
+        neg = {"in": "notin", "notin": "in", "is": "isnot", "isnot": "is"}
+        if head(x) == "cmp" and x[1] in neg:
+            return ("cmp", neg[x[1]], x[2], x[3])
+        if head(x) == "un" and x[1] == "not" and head(strip(x[2])) in ("cmp", "and", "or"):
+            return x[2]
     if h == "cmp" and t[1] in ("is", "isnot", "==", "!=") and is_const(strip(t[3]), None):
         x = strip(t[2])
         # freshly constructed objects are never None
         if head(x) == "call" and head(strip(x[1])) == "glob" and strip(x[1])[1] in _NEVER_NONE:
             return FALSE if t[1] in ("is", "==") else TRUE
         if head(x) in ("list", "tuple", "dict", "set", "comp", "fstr") or (is_const(x) and x[2] is not None):
+            return FALSE if t[1] in ("is", "==") else TRUE
+        if _is_group_frame(x):
             return FALSE if t[1] in ("is", "==") else TRUE
     return t
 
@@ -587,6 +708,9 @@ def canon_folds(t):
                 for v in vals:
                     cur = subst(t[5], {("acc", t[2], 0): cur, ("elem", t[2], t[3]): const(v)})
                 return cur
+        pl = _pair_loop(t)
+        if pl is not None:
+            return canon_folds(pl)
         d, it, init, step = t[2], t[3], strip(t[4]), strip(t[5])
         acc = ("acc", d, 0)
         elem = ("elem", d, it)
@@ -650,6 +774,40 @@ def canon_folds(t):
     if h == "comp" and t[1] == "gen":
         return ("comp", "list", t[2], t[3], t[4])
     return t
+
+
+def _call_arg(c, i, name):
+    c = strip(c)
+    if len(c[2]) > i:
+        return c[2][i]
+    return dict(c[3]).get(name)
+
+
+def _pair_loop(t):
+    """for i, x in enumerate(G): for y in G[i + 1:]: acc.step(x, y)   ->   for (x, y) in itertools.combinations(G, 2): acc.step(x, y)
+    (the index i is used for the slice only)."""
+    d, it, init, inner = t[2], strip(t[3]), t[4], strip(t[5])
+    if not (head(it) == "call" and strip(it[1]) == ("glob", "builtins.enumerate") and head(inner) == "fold" and inner[1] == "for" and not inner[6]):
+        return None
+    G = _call_arg(it, 0, "iterable")
+    start = _call_arg(it, 1, "start")
+    if G is None or (start is not None and not is_const(strip(start), 0)):
+        return None
+    G = strip(G)
+    e0 = ("elem", d, t[3])
+    idx = ("item", e0, 0)
+    it1 = strip(inner[3])
+    want = ("sub", G, ("slice", ("bin", "+", idx, const(1)), NONE, NONE))
+    if strip_all(it1) != strip_all(want) or strip(inner[4]) != ("acc", d, 0):
+        return None
+    d1 = inner[2]
+    e1 = ("elem", d1, inner[3])
+    combos = ("call", ("glob", "itertools.combinations"), (G, const(2)), ())
+    ec = ("elem", d, combos)
+    body = subst(inner[5], {e1: ("item", ec, 1), ("item", e0, 1): ("item", ec, 0), ("acc", d1, 0): ("acc", d, 0)})
+    if any(x == e0 or x == e1 for x in walk(body)) or any(x[0] == "acc" and x[1] == d1 for x in walk(body)):
+        return None
+    return ("fold", "for", d, combos, init, body, ())
 
 
 def _str_pieces(step, acc):
